@@ -3,9 +3,14 @@
 import re
 def model_case(case):
     """`pg t j` (a guard dropped by unwinding) is `en t j ; ex t j` to the model and the specification"""
+    # a captured SpanTrace is a handle on the span that was current: capture = clone, reading it = the scope walk, dropping it = drop
+    case = re.sub(r'st (\d+) (\d+) (\d+)', r'cl \3', case)
+    case = re.sub(r'sr (\d+) (\d+)', r'sc \2', case)
+    case = re.sub(r'sx (\d+) (\d+) (\d+)', r'dr \1 \3', case)
+    case = re.sub(r'pgl (\d+) (\d+)', r'ren \1 \2 ; rex \1 \2 ; dr \1 \2', case)
     return re.sub(r'pg (\d+) (\d+)', r'en \1 \2 ; ex \1 \2', case)
 
-def gen_history(rng, nops, nthreads=None, f2=False, reentry=0.05, unwind=True):
+def gen_history(rng, nops, nthreads=None, f2=False, reentry=0.05, unwind=True, traces=False):
     nthreads = nthreads or rng.choice([1, 1, 2, 3])
     ops = []
     handles = {}          # span -> handles held by the program (not counting guards)
@@ -13,10 +18,12 @@ def gen_history(rng, nops, nthreads=None, f2=False, reentry=0.05, unwind=True):
     entered = {t: [] for t in range(nthreads)}
     nspans = 0
     dflt = {t: 'own' for t in range(nthreads)}
+    held_traces = {}; ntr = [0]
     while len(ops) < nops:
         r = rng.random()
         t = rng.randrange(nthreads)
-        live = [j for j, h in handles.items() if h > 0]
+        # (handles in the program's pool: a captured SpanTrace holds one of its own, which nothing else can use)
+        live = [j for j, h in handles.items() if h - sum(1 for v in held_traces.values() if v == j) > 0]
         if r < 0.22 and nspans < 14:
             if dflt[t] != 'own':
                 continue
@@ -28,7 +35,13 @@ def gen_history(rng, nops, nthreads=None, f2=False, reentry=0.05, unwind=True):
         elif r < 0.28 and live:
             j = rng.choice(live); ops.append('cl %d' % j); handles[j] += 1
         elif r < 0.42 and live:
-            j = rng.choice(live); ops.append('dr %d %d' % (t, j)); handles[j] -= 1
+            j = rng.choice(live)
+            if unwind and rng.random() < 0.15 and dflt[t] == 'own' and j not in entered[t]:
+                # the handle is moved into an entered guard that a caught panic drops: possibly the span's LAST reference
+                ops.append('pgl %d %d' % (t, j))
+            else:
+                ops.append('dr %d %d' % (t, j))
+            handles[j] -= 1
         elif r < 0.62 and live:
             j = rng.choice(live)
             if j in entered[t] and rng.random() > reentry:
@@ -50,6 +63,14 @@ def gen_history(rng, nops, nthreads=None, f2=False, reentry=0.05, unwind=True):
         elif r < 0.88:
             if dflt[t] == 'own' or f2:
                 ops.append('ev %d' % t)
+        elif traces and r < 0.905 and entered[t] and dflt[t] == 'own' and len(held_traces) < 4:
+            # tracing-error: a SpanTrace captured inside the current span (it keeps that span — and so its ancestors — alive)
+            j = entered[t][-1]; ntr[0] += 1; held_traces[ntr[0]] = j; handles[j] += 1
+            ops.append('st %d %d %d' % (t, ntr[0], j))
+        elif traces and r < 0.915 and held_traces:
+            k = rng.choice(sorted(held_traces)); ops.append('sr %d %d' % (k, held_traces[k]))
+        elif traces and r < 0.92 and held_traces:
+            k = rng.choice(sorted(held_traces)); j = held_traces.pop(k); handles[j] -= 1; ops.append('sx %d %d %d' % (t, k, j))
         elif r < 0.92:
             ops.append('cu %d' % t)
         elif r < 0.96 and nspans:
@@ -66,6 +87,9 @@ def gen_history(rng, nops, nthreads=None, f2=False, reentry=0.05, unwind=True):
             idx = len(entered[tt]) - 1 - entered[tt][::-1].index(j)
             del entered[tt][idx]
             ops.append('ex %d %d' % (tt, j))
+    for k in sorted(held_traces):
+        j = held_traces[k]; handles[j] -= 1
+        ops.append('sr %d %d' % (k, j)); ops.append('sx %d %d %d' % (rng.randrange(nthreads), k, j))
     order = [j for j, h in handles.items() for _ in range(h)]
     rng.shuffle(order)
     for j in order:
@@ -73,6 +97,29 @@ def gen_history(rng, nops, nthreads=None, f2=False, reentry=0.05, unwind=True):
     for j in range(nspans):
         if rng.random() < 0.3: ops.append('lk %d' % j)
     return ' ; '.join(ops)
+
+def valid_traces(case):
+    """a history with SpanTrace ops means what the model is told only if every capture happens inside the span it names (the
+    current span of that thread) and every read / drop refers to a captured, not yet dropped trace — the shrinker must not leave that"""
+    entered = {}; traces = {}
+    for op in case.split(' ; '):
+        w = op.split()
+        if not w: continue
+        if w[0] in ('en', 'ren'): entered.setdefault(w[1], []).append(w[2])
+        elif w[0] in ('ex', 'rex'):
+            st = entered.get(w[1], [])
+            if w[2] in st:
+                i = len(st) - 1 - st[::-1].index(w[2]); del st[i]
+        elif w[0] == 'st':
+            st = entered.get(w[1], [])
+            if not st or st[-1] != w[3] or w[2] in traces: return False
+            traces[w[2]] = w[3]
+        elif w[0] == 'sr':
+            if traces.get(w[1]) != w[2]: return False
+        elif w[0] == 'sx':
+            if traces.get(w[2]) != w[3]: return False
+            del traces[w[2]]
+    return True
 
 def stats(case, out):
     return {'closes': out.count('x'), 'spans': case.count('ns '), 'threads': len(set(o.split()[1] for o in case.split(' ; ') if o.split()[0] in ('ns', 'en', 'ex', 'dr', 'ev', 'cu'))),
